@@ -1,10 +1,116 @@
-(* C08 - BatchedWriter never loses or half-writes an enqueued object. Statements only. *)
+(* C08 - BatchedWriter never loses or half-writes an enqueued object. Statements only.
+   Model: Verif.C08_Batch.Model (step : config -> state -> tid -> choice -> option state; run skips disabled entries).
+   `fixedc c` = the code after the two fix: commits (writeWg.Add before `go`, scheduledCount raised before the
+   running check); the other variants are the pinned code. *)
 From Coq Require Import List Bool Arith ZArith.
-From Verif.C08_Batch Require Import Model Witness Proofs.
+From Verif.C08_Batch Require Import Model Proofs.
 Import ListNotations.
 
+(* SAFETY - every variant, every configuration, every schedule.  With l the chronological callback log:
+   l is accepted by the writer-protocol automaton (BatchWriteDone(o) only as the next due call of the last commit,
+   which contained exactly the mutations written since the previous commit; one open batch; no BatchWrite while
+   Done calls are due), the store is the last committed BatchWrite of each object, every BatchWrite is committed or in
+   the one open batch, BatchWriteDone calls + those still due = the committed objects in order (once per collection). *)
+Theorem C08_safety : forall c ops sch, let s := run c sch (init ops) in
+  let l := rev (log s) in
+  ck_run ck0 l = Some (mkck (batch s) (dq s) (store s)) /\
+  log_safe l = true /\
+  (forall o, store s o = last_w (committed l) o) /\
+  writes l = committed l ++ batch s /\
+  dones l ++ dq s = map fst (committed l).
+Proof. exact safety. Qed.
+
+(* COMPLETENESS (repaired code), part proved: a Stop call that is invoked in a state where the writer goroutine
+   exists and that has returned: the writer has terminated, nothing is queued, no Enqueue call is past its running
+   check, every BatchWrite is committed and every committed object has had its BatchWriteDone, Wait is open. *)
+Theorem C08_complete_partial : forall c ops sch1 sch2 ts r, fixedc c ->
+  let s1 := run c sch1 (init ops) in
+  let s2 := run c sch2 s1 in
+  spawned s1 = true ->
+  nth_error (thr s1) ts = Some (OStop, PIdle) ->
+  nth_error (thr s2) ts = Some (OStop, PRet r) ->
+  wp s2 = WFin /\ running s2 = false /\ queue s2 = [] /\ cnt inF (thr s2) = 0 /\ batch s2 = [] /\ dq s2 = [] /\
+  writes (rev (log s2)) = committed (rev (log s2)) /\
+  dones (rev (log s2)) = map fst (committed (rev (log s2))) /\
+  wg s2 = 0.
+Proof. exact stop_complete. Qed.
+
+(* "An Enqueue call returned before Stop was invoked" gives the hypothesis `spawned s1 = true` above. *)
+Theorem C08_enqueue_returned_writer_exists : forall c ops s t o v r, fixedc c -> reach c ops s ->
+  nth_error (thr s) t = Some (OEnq o v, PRet r) -> spawned s = true.
+Proof. exact enq_returned_spawned. Qed.
+
+(* The full completeness statement (not proved; missing: the per-object invariant "content changed after the last
+   BatchWrite => object queued / held by a sender / in the writer's hands, or its last Enqueue is before the flag test
+   or was rejected"; checked on every run by the Go oracle and Corr.free_ok instead). *)
+Definition C08_complete_full_statement : Prop := forall c ops sch1 sch2 t ts o v r r', fixedc c ->
+  let s1 := run c sch1 (init ops) in
+  let s2 := run c sch2 s1 in
+  nth_error (thr s1) t = Some (OEnq o v, PRet r) -> (r = RAcc \/ r = RDup) ->
+  nth_error (thr s1) ts = Some (OStop, PIdle) ->
+  nth_error (thr s2) ts = Some (OStop, PRet r') ->
+  last_setter (log s2) o = Some (t, v) ->
+  store s2 o = Some v /\ dirty (log s2) o = false.
+
+(* NO BLOCKING (repaired code), part proved: a call past its running check is never abandoned by the writer
+   (the writer is alive and scheduledCount >= 1 keeps it alive), and once the writer has terminated Wait is open,
+   running is false, the queue is empty and no call is past its running check. *)
+Theorem C08_no_block_partial_sender : forall c ops s t o p, fixedc c -> reach c ops s ->
+  nth_error (thr s) t = Some (o, p) -> (p = PE EFlag \/ p = PE ESend) ->
+  wp s <> WExit /\ wp s <> WFin /\ (1 <= sched s)%Z.
+Proof. exact sender_not_abandoned. Qed.
+
+Theorem C08_no_block_partial_after_exit : forall c ops s, fixedc c -> reach c ops s -> wp s = WFin ->
+  wg s = 0 /\ running s = false /\ queue s = [] /\ cnt inF (thr s) = 0.
+Proof. exact after_exit. Qed.
+
+(* full statement (not proved): no reachable state of the repaired code is stuck with an unfinished call *)
+Definition C08_no_block_full_statement : Prop := forall c ops s, fixedc c -> reach c ops s -> stuckb c s = true ->
+  forall i o p, nth_error (thr s) i = Some (o, p) -> exists r, p = PRet r.
+
+(* PINNED CODE - refuted (D08a, D08b); both repaired by fix: commits, the model's fixed variant mirrors the repair *)
 Theorem C08_refuted_wg_pinned :
   pc_of s_d08a 0 = Some (PRet RAcc) /\ pc_of s_d08a 1 = Some (PRet (RStop true)) /\
   queue s_d08a = [0] /\ store s_d08a 0 = None /\ writes (rev (log s_d08a)) = [] /\ wp s_d08a = WStart.
 Proof. exact d08a_witness. Qed.
+
+Theorem C08_refuted_block_pinned :
+  pc_of (s_d08b 0) 1 = Some (PE ESend) /\ pc_of (s_d08b 0) 2 = Some (PRet (RStop true)) /\
+  wp (s_d08b 0) = WFin /\ stuckb (cfg_d08b 0) (s_d08b 0) = true.
+Proof. exact d08b_witness_block. Qed.
+
+Theorem C08_refuted_strand_pinned :
+  pc_of (s_d08b 1) 1 = Some (PRet RAcc) /\ pc_of (s_d08b 1) 2 = Some (PRet (RStop true)) /\
+  wp (s_d08b 1) = WFin /\ queue (s_d08b 1) = [1] /\ flag (s_d08b 1) 1 = true /\ store (s_d08b 1) 1 = None /\
+  stuckb (cfg_d08b 1) (s_d08b 1) = true.
+Proof. exact d08b_witness_strand. Qed.
+
+(* regressions on the repaired variant: the same races end with everything written and done *)
+Example C08_regression_wg : pc_of s_d08a_fixed 1 = Some (PS4 true) /\ wg s_d08a_fixed = 1.
+Proof. exact d08a_fixed_regression. Qed.
+Example C08_regression_race : forall q, q = 0 \/ q = 1 ->
+  pc_of (s_race_fixed q) 1 = Some (PRet RAcc) /\ pc_of (s_race_fixed q) 2 = Some (PRet (RStop true)) /\
+  wp (s_race_fixed q) = WFin /\ store (s_race_fixed q) 1 = Some 2 /\ dones (rev (log (s_race_fixed q))) = [0; 1].
+Proof. exact race_fixed_regression. Qed.
+
+(* non-vacuity: the hypotheses of C08_complete_partial / C08_no_block_partial_sender hold on a real run *)
+Example C08_complete_nonvacuous :
+  let s1 := run (fixed 1 1) (rep 10 1) (init ops_d08b) in
+  let s2 := run (fixed 1 1) (skipn 10 sch_race_fixed) s1 in
+  fixedc (fixed 1 1) /\ spawned s1 = true /\ nth_error (thr s1) 2 = Some (OStop, PIdle) /\
+  nth_error (thr s2) 2 = Some (OStop, PRet (RStop true)) /\ store s2 1 = Some 2.
+Proof. vm_compute. repeat split; reflexivity. Qed.
+
+Example C08_sender_nonvacuous :
+  let s := run (fixed 0 1) (rep 10 1) (init ops_d08b) in
+  nth_error (thr s) 0 = Some (OEnq 0 1, PE ESend) /\ wp s = WHead /\ sched s = 1%Z.
+Proof. vm_compute. repeat split; reflexivity. Qed.
+
+Print Assumptions C08_safety.
+Print Assumptions C08_complete_partial.
+Print Assumptions C08_enqueue_returned_writer_exists.
+Print Assumptions C08_no_block_partial_sender.
+Print Assumptions C08_no_block_partial_after_exit.
 Print Assumptions C08_refuted_wg_pinned.
+Print Assumptions C08_refuted_block_pinned.
+Print Assumptions C08_refuted_strand_pinned.
